@@ -324,6 +324,11 @@ class Builder:
         entry = L.commands[cc_name]
         fr = {n: t for n, t in L.framing["Response"]["fields"]}
         tag = SESSIONS if n_sessions is not None else NO_SESSIONS
+        if n_sessions is None and ch.chance(1, 12):
+            # any other valid structure tag reads as "no sessions" (e.g. TPM_ST_RSP_COMMAND 0x00C4 of a TPM 1.2 style answer)
+            others = [v for lo, hi in L.allowed(fr["tag"]) for v in range(lo, hi + 1) if v != SESSIONS]
+            tag = ch.choice(others)
+            self.flags.add("unusual_response_tag")
         head = [[path, "Response", ELLIPSIS], [f"{path}.tag", fr["tag"], tag], [f"{path}.responseSize", fr["responseSize"], 0]]
         if failed:
             low = ch.int(1, 0xFFF)
